@@ -103,14 +103,14 @@ fn run_case(c: &Case, out: &mut dyn Write) {
         // watchdog: a worker that does not come back within the limit is reported as stuck
         let mut out = BTreeMap::new();
         for (i, h) in handles {
-            let deadline = Instant::now() + Duration::from_secs(120);
+            let deadline = Instant::now() + Duration::from_secs(900);
             while !h.is_finished() && Instant::now() < deadline {
                 std::thread::sleep(Duration::from_millis(5));
             }
             if h.is_finished() {
                 out.insert(i, h.join().unwrap_or_default());
             } else {
-                eprintln!("conc: worker {i} did not finish within 120 s: reporting a hang");
+                eprintln!("conc: worker {i} did not finish within 900 s: reporting a hang");
                 println!("conc-hang worker {i}");
                 std::process::exit(3);
             }
@@ -119,7 +119,7 @@ fn run_case(c: &Case, out: &mut dyn Write) {
     });
     let workers_ms = started.elapsed().as_millis();
     // let the scheduler finish what is due, then stop it
-    let deadline = Instant::now() + Duration::from_secs(60);
+    let deadline = Instant::now() + Duration::from_secs(600);
     loop {
         let due = s.tasks_busy();
         if !due || Instant::now() > deadline { break; }
@@ -127,7 +127,7 @@ fn run_case(c: &Case, out: &mut dyn Write) {
     }
     let _ = tx.send(());
     let t_join = Instant::now();
-    while !sched.is_finished() && t_join.elapsed() < Duration::from_secs(60) {
+    while !sched.is_finished() && t_join.elapsed() < Duration::from_secs(600) {
         std::thread::sleep(Duration::from_millis(10));
     }
     let sched_done = sched.is_finished();
